@@ -419,6 +419,11 @@ func checkC04(c *Ctx, r *Report) {
 	// and hence no reply taken, anywhere else (shared with C09, C10, C13, C18)
 	checkSendSites(c, r)
 	checkRefusedLeavesNoTrace(c, r)
+	// every method a caller can invoke on the session is the session's own (none promoted from the
+	// session-less connection, whose replies need no AuthCode), and the reply that was checked is
+	// the reply that is decoded: the socket is read in transport.Send only (shared with C03, C11)
+	checkSessionAPIOwnMethods(c, r)
+	checkOneWriteOneRead(c, r)
 
 	// "a valid AuthCode under the session's K1": the integrity algorithm the session verifies with
 	// is the negotiated one at its specified length — a hash truncated to nothing accepts an empty
